@@ -216,6 +216,11 @@ struct P_C14
         eng::Rng rng = ch.fork();
         ref::Analysis an = ref::analyse(c.g);
         gg::gen_inputs(c.g, an, rng, 40 + ch.below(6) * 40, 12, c.inputs);
+        if (ch.chance(1, 4))
+        {   // a sentence deep enough for the value stack to reallocate (1024, 2048 entries)
+            std::vector<int> toks; size_t n = 1030 + ch.below(4) * 520;
+            if (gg::deep_sentence(c.g, an, n, rng, toks)) c.inputs.push_back(gg::Input{gg::render(toks, nullptr)});
+        }
         return c;
     }
     static vj::Value to_json(const Case& c) { vj::Value v = gcase_to_json(c); v.set("template", c.tmpl == 3 ? "TKm" : "TKc"); return v; }
